@@ -107,7 +107,8 @@ class History:
             self.refs[oid] = 1
             did = ["eval", kind, src, out]
         elif op == "alias":
-            src = self.pick(list(self.names), s[1])
+            # (an iterator is not aliased: a second name for a generator says nothing about the tensor once it is drained)
+            src = self.pick([n for n, v in self.names.items() if v["type"] != "iter"], s[1])
             if src is not None:
                 dst = self.fresh()
                 self.call({"cmd": "alias", "src": src, "dst": dst})
@@ -140,6 +141,41 @@ class History:
                 self.touch(src)
                 self.features.add("pickled")
                 did = ["pickle", src, dst]
+        elif op == "iter":
+            src = self.pick(self.tensors(), s[1])
+            if src is not None:
+                dst = self.fresh()
+                rep = self.call({"cmd": "iter", "src": src, "dst": dst})
+                if rep.get("exhausted"):
+                    # nothing stored: the generator finished at once and holds no reference
+                    self.names[dst] = {"obj": None, "type": "iter", "kind": self.names[src]["kind"]}
+                else:
+                    self.names[dst] = {"obj": self.names[src]["obj"], "type": "iter", "kind": self.names[src]["kind"]}
+                    self.ref(self.names[src]["obj"], +1)
+                    self.features.add("aliased")
+                    self.features.add("items_iterator_held")
+                did = ["iter", src, dst]
+        elif op == "drain":
+            its = [n for n, v in self.names.items() if v["type"] == "iter"]
+            name = self.pick(its, s[1])
+            if name is not None:
+                self.call({"cmd": "drain", "name": name})
+                v = self.names.pop(name)
+                if v["obj"] is not None and self.refs.get(v["obj"], 0) == 1:
+                    self.features.add("iterator_outlived_the_tensor")
+                if "deleted_while_other_reference_alive" in self.features:
+                    self.features.add("used_after_a_deletion")
+                self.ref(v["obj"], -1)
+                did = ["drain", name]
+        elif op == "fail_eval":
+            src = self.pick(self.tensors(), s[1])
+            if src is not None and self.names[src]["kind"] not in ("scalar",):
+                rep = self.call({"cmd": "fail_eval", "src": src, "variant": s[2]})
+                if rep.get("raised_and_caught") is None:
+                    self.fails.append(fail("refused-call-was-accepted", f"fail_eval variant {s[2] % 4} on {src} returned a result"))
+                self.features.add("refused_call_with_result_as_argument")
+                self.touch(src)
+                did = ["fail_eval", src, s[2] % 4]
         elif op == "del":
             name = self.pick(list(self.names), s[1])
             if name is not None:
@@ -233,13 +269,19 @@ REDUCED = [["eval", 0, -1], ["eval", 5, 0], ["eval", 3, 1000], ["alias", 1000], 
            ["del", 0], ["del", 1000], ["gc"], ["pickle", 1000]]
 
 
+# second exhaustive family: a held items() iterator and refused calls between evaluations, deletions and collections
+READERS = [["eval", 0, -1], ["eval", 1, 0], ["iter", 1000], ["drain", 0], ["del", 0], ["del", 1000], ["gc"], ["fail_eval", 1000, 0],
+           ["fail_eval", 0, 1]]
+
+
 def exhaustive_task(task):
-    prefix, length = task
+    prefix, length = task[:2]
+    alphabet = READERS if len(task) > 2 and task[2] == "readers" else REDUCED
     stats = Stats()
     w = make_worker()
     try:
-        for tail in itertools.product(range(len(REDUCED)), repeat=length - len(prefix)):
-            steps = [REDUCED[k] for k in list(prefix) + list(tail)]
+        for tail in itertools.product(range(len(alphabet)), repeat=length - len(prefix)):
+            steps = [alphabet[k] for k in list(prefix) + list(tail)]
             stats.add({"steps": steps}, run_history(steps, w))
     finally:
         w.close()
@@ -300,6 +342,21 @@ def machine_class(worker, stats):
         @rule(src=st.integers(0, 50))
         def pickle_round_trip(self, src):
             self.do(["pickle", src])
+
+        @precondition(lambda self: self.h.tensors())
+        @rule(src=st.integers(0, 50))
+        def start_items_iterator(self, src):
+            self.do(["iter", src])
+
+        @precondition(lambda self: any(v["type"] == "iter" for v in self.h.names.values()))
+        @rule(k=st.integers(0, 50))
+        def drain_iterator(self, k):
+            self.do(["drain", k])
+
+        @precondition(lambda self: self.h.tensors())
+        @rule(src=st.integers(0, 50), variant=st.integers(0, 3))
+        def refused_call(self, src, variant):
+            self.do(["fail_eval", src, variant])
 
         @precondition(lambda self: self.h.names)
         @rule(name=st.integers(0, 50))
@@ -382,6 +439,8 @@ def run(chk):
     length = 4 if quick else 5
     tasks = [("ex", ((a, b), length)) for a in range(len(REDUCED)) for b in range(len(REDUCED))]
     tasks += [("ex", ((a,), 1)) for a in range(len(REDUCED))] + [("ex", ((a, b), 2)) for a in range(3) for b in range(len(REDUCED))]
+    # every history of that length over the readers alphabet that starts with an evaluation
+    tasks += [("ex", ((a, b), length, "readers")) for a in range(2) for b in range(len(READERS))]
     n = 800 if quick else 8000
     tasks += [("st", (chk.seed, s, n // 16)) for s in range(16)]
     chk.absorb(run_tasks(_dispatch, tasks), shrink=shrink_case, kind="history")
